@@ -11,6 +11,14 @@ import json, os, re, shutil, sys
 def main():
     args = sys.argv[1:]
     fired_logs = []
+    idfmt = "%s-%s"
+    if "--idfmt" in args:
+        i = args.index("--idfmt")
+        idfmt = args[i + 1]
+        del args[i:i + 2]
+    keep_index = "--append" in args
+    if keep_index:
+        args.remove("--append")
     while "--fired" in args:
         i = args.index("--fired")
         fired_logs.append(args[i + 1])
@@ -46,7 +54,7 @@ def main():
             if not ok:
                 print("not filed (unconfirmed):", d, st)
                 continue
-            sid = "%s-%s" % (prop, m)
+            sid = idfmt % (prop, m)
             dst = os.path.join(out_root, sid)
             if os.path.isdir(dst):
                 shutil.rmtree(dst)
@@ -96,8 +104,12 @@ def main():
             }
             json.dump(meta, open(os.path.join(dst, "meta.json"), "w"), indent=1)
             index.append(meta)
-    json.dump([{k: m[k] for k in ("id", "property", "title", "detected", "checks_that_fire")} for m in index],
-              open(os.path.join(out_root, "INDEX.json"), "w"), indent=1)
+    entries = [{k: m[k] for k in ("id", "property", "title", "detected", "checks_that_fire")} for m in index]
+    ipath = os.path.join(out_root, "INDEX.json")
+    if keep_index and os.path.isfile(ipath):
+        old = [e for e in json.load(open(ipath)) if e["id"] not in {x["id"] for x in entries}]
+        entries = sorted(old + entries, key=lambda e: e["id"])
+    json.dump(entries, open(ipath, "w"), indent=1)
     print("filed", len(index), "seeds;", sum(1 for m in index if m["detected"]), "detected")
 
 if __name__ == "__main__":
